@@ -598,11 +598,85 @@ def has_duplicate_composite(s):
     return len(keys) != len(set(keys))
 
 
+def respawn_from_enclosing(rng, s, b):
+    """Post-pass on a conformant threaded scenario: one NESTED thread group whose variable nobody reads is made to spawn
+    from an object promise that an action of an ENCLOSING thread group fulfils -- written as a global promise reference,
+    typed as ONE object from inside that group -- provided that action is among the nested group's ancestors (through
+    its own checkpoint or an inherited one).  Returns True when a group was changed."""
+    by_id = {g["id"]: g for g in s["groups"]}
+
+    def chain_of(gid):
+        out = []
+        while gid is not None:
+            out.append(gid)
+            g = by_id.get(gid)
+            gid = g["ctx"][1] if g and g["ctx"] else None
+        return out
+    gs = [g for g in s["groups"] if g["ctx"] is not None]
+    rng.shuffle(gs)
+    for g in gs:
+        if any(h["src"][0] == "V" and h["src"][1] == g["id"] for h in s["groups"]):
+            continue
+        if any(d[0] == "cmp" and any(o[0] == "var" and o[1] == g["id"] for o in (d[1], d[3])) for c in s["checkpoints"] for d in c["deps"]):
+            continue
+        chain = chain_of(g["ctx"][1])
+        mentioned = set()
+        for h in [g] + [by_id[i] for i in chain if i in by_id]:
+            if h["dep"] is None:
+                continue
+            stack, seen = [h["dep"][1]], set()
+            while stack:
+                cid = stack.pop()
+                if cid in seen:
+                    continue
+                seen.add(cid)
+                cp = next((c for c in s["checkpoints"] if c["id"] == cid), None)
+                if cp is None:
+                    continue
+                for d in cp["deps"]:
+                    if d[0] == "ref":
+                        stack.append(d[1][1])
+                    else:
+                        for o in (d[1], d[3]):
+                            if o[0] == "act":
+                                mentioned |= {o[1][1]} | b.anc.get(o[1][1], set())
+        cands = [p for p in s["promises"] if p["ctx"] is not None and p["ctx"][1] in chain and b.creator.get(p["id"]) is not None
+                 and b.creator.get(p["id"]) in mentioned and b.list_paths(p["type"][1])]
+        if not cands and g["dep"] is None:
+            # give the nested group a checkpoint of its own, bound to the enclosing group, that waits for a threaded
+            # creator of that group (in scope there): the creator becomes an ancestor of the nested group
+            parent = g["ctx"][1]
+            own = [p for p in s["promises"] if p["ctx"] is not None and p["ctx"][1] == parent and b.list_paths(p["type"][1])
+                   and b.creator.get(p["id"]) is not None
+                   and any(a["id"] == b.creator[p["id"]] and a["ctx"] == ("group", parent) and a["op"]["appends"] is None for a in s["actions"])]
+            if own:
+                p0 = rng.choice(own)
+                aid = b.creator[p0["id"]]
+                cid = max([c["id"] for c in s["checkpoints"]] + [0]) + 1
+                s["checkpoints"].append({"id": cid, "alias": 500 + cid, "gate": None, "deps": [b.make_cmp(aid)[0]], "ctx": ("group", parent)})
+                g["dep"] = ("checkpoint", cid)
+                extra = {aid} | b.anc.get(aid, set())
+                inside = {h["id"] for h in s["groups"] if g["id"] in chain_of(h["id"])}
+                for a in s["actions"]:
+                    if a["ctx"] is not None and a["ctx"][1] in inside:
+                        b.anc[a["id"]] = b.anc.get(a["id"], set()) | extra
+                cands = [p0]
+        if not cands:
+            continue
+        p = rng.choice(cands)
+        path = rng.choice(b.list_paths(p["type"][1]))[0]
+        g["src"] = ("P", ("promise", p["id"]), list(path))
+        return True
+    return False
+
+
 def gen_valid(rng, n_actions=None, threads=False, builder=False):
     for _ in range(20):
         n = n_actions or rng.choice([2, 3, 4, 5, 6, 8, 10])
         b = Builder(rng, n, threads)
         s = b.build()
+        if threads and rng.random() < 0.4:
+            respawn_from_enclosing(rng, s, b)
         if not has_duplicate_composite(s):
             return (s, b) if builder else s
     raise RuntimeError("could not generate a scenario without duplicate checkpoints")
